@@ -575,9 +575,24 @@ def expand_dict_dispatch(tree: ast.Module) -> int:
             for k, v in zip(d.keys, d.values):
                 if isinstance(v, ast.Lambda):
                     a = v.args
-                    if a.args or a.kwonlyargs or a.vararg or a.kwarg or a.posonlyargs or call.args or call.keywords:
+                    if a.kwonlyargs or a.vararg or a.kwarg or a.posonlyargs or call.keywords or a.defaults:
                         return None
-                    val = copy.deepcopy(v.body)
+                    if len(a.args) != len(call.args):
+                        return None
+                    simple = lambda e: isinstance(e, (ast.Name, ast.Constant)) or (isinstance(e, ast.Attribute) and simple(e.value))
+                    if not all(simple(x) for x in call.args):
+                        return None
+                    sub = {p_.arg: x for p_, x in zip(a.args, call.args)}
+                    if any(isinstance(x, (ast.Lambda, ast.NamedExpr)) for x in ast.walk(v.body)):
+                        return None
+
+                    class L(ast.NodeTransformer):
+                        def visit_Name(self, n, _sub=sub):
+                            if n.id in _sub and isinstance(n.ctx, ast.Load):
+                                return ast.copy_location(copy.deepcopy(_sub[n.id]), n)
+                            return n
+
+                    val = L().visit(copy.deepcopy(v.body))  # (lambda t: E)(x)  ->  E[t := x]
                 else:
                     val = ast.Call(func=copy.deepcopy(v), args=copy.deepcopy(call.args), keywords=copy.deepcopy(call.keywords))
                 test = ast.Compare(left=copy.deepcopy(key), ops=[ast.Eq()], comparators=[copy.deepcopy(k)])
@@ -1295,6 +1310,158 @@ def select_callable(tree: ast.Module) -> int:
             return out
 
         fn.body = rewrite(fn.body)
+    if count:
+        ast.fix_missing_locations(tree)
+    return count
+
+
+# ---------------------------------------------------------------------------------
+# D = {n: getattr(o, n) for n in ("a", "b")}; D["c"] = v      ->      D = dict(a=o.a, b=o.b, c=v)
+# ---------------------------------------------------------------------------------
+def build_literal_dict(tree: ast.Module) -> int:
+    """a dict comprehension over a literal sequence of identifier strings (also the concatenation of locals
+    bound once to such sequences) whose key is the loop variable becomes the dict(...) call it spells out;
+    constant-key stores that follow it directly are folded in"""
+    import copy
+    import keyword
+
+    count = 0
+
+    for fn in [n for n in ast.walk(tree) if isinstance(n, (ast.FunctionDef, ast.AsyncFunctionDef))]:
+        stores = {}
+        for n in ast.walk(fn):
+            if isinstance(n, ast.Name) and isinstance(n.ctx, (ast.Store, ast.Del)):
+                stores[n.id] = stores.get(n.id, 0) + 1
+        consts = {}
+        for st in ast.walk(fn):
+            if isinstance(st, ast.Assign) and len(st.targets) == 1 and isinstance(st.targets[0], ast.Name) and stores.get(st.targets[0].id) == 1 and isinstance(st.value, (ast.Tuple, ast.List)) and st.value.elts and all(isinstance(e, ast.Constant) and isinstance(e.value, str) for e in st.value.elts):
+                consts[st.targets[0].id] = [e.value for e in st.value.elts]
+
+        def names_of(e):
+            if isinstance(e, (ast.Tuple, ast.List)) and all(isinstance(x, ast.Constant) and isinstance(x.value, str) for x in e.elts):
+                return [x.value for x in e.elts]
+            if isinstance(e, ast.Name) and e.id in consts:
+                return list(consts[e.id])
+            if isinstance(e, ast.BinOp) and isinstance(e.op, ast.Add):
+                l, r = names_of(e.left), names_of(e.right)
+                return None if l is None or r is None else l + r
+            return None
+
+        def rewrite(block):
+            nonlocal count
+            out = []
+            i = 0
+            while i < len(block):
+                st = block[i]
+                for fld in ("body", "orelse", "finalbody"):
+                    sub = getattr(st, fld, None)
+                    if isinstance(sub, list) and sub and isinstance(sub[0], ast.stmt) and not isinstance(st, (ast.FunctionDef, ast.AsyncFunctionDef, ast.ClassDef)):
+                        setattr(st, fld, rewrite(sub))
+                for h in getattr(st, "handlers", []) or []:
+                    h.body = rewrite(h.body)
+                if isinstance(st, ast.Assign) and len(st.targets) == 1 and isinstance(st.targets[0], ast.Name) and isinstance(st.value, ast.DictComp) and len(st.value.generators) == 1:
+                    g = st.value.generators[0]
+                    keys = names_of(g.iter)
+                    if keys is not None and not g.ifs and isinstance(g.target, ast.Name) and isinstance(st.value.key, ast.Name) and st.value.key.id == g.target.id and len(set(keys)) == len(keys) and all(k.isidentifier() and not keyword.iskeyword(k) for k in keys):
+                        v = g.target.id
+                        kws = []
+                        ok = True
+                        for k in keys:
+
+                            class S(ast.NodeTransformer):
+                                def visit_Call(self, c, _k=k):
+                                    self.generic_visit(c)
+                                    if isinstance(c.func, ast.Name) and c.func.id == "getattr" and len(c.args) == 2 and isinstance(c.args[1], ast.Constant) and c.args[1].value == _k:
+                                        return ast.copy_location(ast.Attribute(value=c.args[0], attr=_k, ctx=ast.Load()), c)
+                                    return c
+
+                                def visit_Name(self, n, _k=k):
+                                    if n.id == v and isinstance(n.ctx, ast.Load):
+                                        return ast.copy_location(ast.Constant(_k), n)
+                                    return n
+
+                            kws.append(ast.keyword(arg=k, value=S().visit(copy.deepcopy(st.value.value))))
+                        D = st.targets[0].id
+                        j = i + 1
+                        while j < len(block):
+                            nx = block[j]
+                            if isinstance(nx, ast.Assign) and len(nx.targets) == 1 and isinstance(nx.targets[0], ast.Subscript) and isinstance(nx.targets[0].value, ast.Name) and nx.targets[0].value.id == D and isinstance(nx.targets[0].slice, ast.Constant) and isinstance(nx.targets[0].slice.value, str) and nx.targets[0].slice.value.isidentifier() and not any(isinstance(x, ast.Name) and x.id == D for x in ast.walk(nx.value)):
+                                kk = nx.targets[0].slice.value
+                                kws = [k_ for k_ in kws if k_.arg != kk] + [ast.keyword(arg=kk, value=nx.value)]
+                                j += 1
+                            else:
+                                break
+                        new = ast.Assign(targets=[st.targets[0]], value=ast.Call(func=ast.Name(id="dict", ctx=ast.Load()), args=[], keywords=kws), type_comment=None)
+                        ast.copy_location(new, st)
+                        ast.fix_missing_locations(new)
+                        out.append(new)
+                        count += 1
+                        i = j
+                        continue
+                out.append(st)
+                i += 1
+            return out
+
+        fn.body = rewrite(fn.body)
+    if count:
+        ast.fix_missing_locations(tree)
+    return count
+
+
+# ---------------------------------------------------------------------------------
+# filter(lambda x: C, IT)  ->  (x for x in IT if C)        map(lambda x: E, IT)  ->  (E for x in IT)
+# ---------------------------------------------------------------------------------
+def filter_map_to_comprehension(tree: ast.Module) -> int:
+    """only where the result is consumed at once: the sole argument of list / tuple / set / sorted / sum / any / all
+    / max / min / frozenset, or the iterable of a for loop (a generator expression is evaluated lazily in the
+    same order as filter / map)"""
+    import copy
+
+    count = 0
+    CONSUMERS = {"list", "tuple", "set", "sorted", "sum", "any", "all", "max", "min", "frozenset"}
+
+    def convert(c):
+        if not (isinstance(c, ast.Call) and isinstance(c.func, ast.Name) and c.func.id in ("filter", "map") and len(c.args) == 2 and not c.keywords):
+            return None
+        lam, it = c.args
+        if not isinstance(lam, ast.Lambda):
+            return None
+        a = lam.args
+        if len(a.args) != 1 or a.posonlyargs or a.kwonlyargs or a.vararg or a.kwarg or a.defaults:
+            return None
+        if any(isinstance(x, (ast.Lambda, ast.NamedExpr, ast.Yield, ast.Await)) for x in ast.walk(lam.body)):
+            return None
+        v = a.args[0].arg
+        tgt = ast.Name(id=v, ctx=ast.Store())
+        if c.func.id == "filter":
+            gen = ast.GeneratorExp(elt=ast.Name(id=v, ctx=ast.Load()), generators=[ast.comprehension(target=tgt, iter=it, ifs=[copy.deepcopy(lam.body)], is_async=0)])
+        else:
+            gen = ast.GeneratorExp(elt=copy.deepcopy(lam.body), generators=[ast.comprehension(target=tgt, iter=it, ifs=[], is_async=0)])
+        return ast.copy_location(gen, c)
+
+    class T(ast.NodeTransformer):
+        def visit_Call(self, c):
+            nonlocal count
+            self.generic_visit(c)
+            if isinstance(c.func, ast.Name) and c.func.id in CONSUMERS and len(c.args) == 1 and not c.keywords:
+                g = convert(c.args[0])
+                if g is not None:
+                    count += 1
+                    if c.func.id == "list":
+                        return ast.copy_location(ast.ListComp(elt=g.elt, generators=g.generators), c)
+                    c.args = [g]
+            return c
+
+        def visit_For(self, n):
+            nonlocal count
+            self.generic_visit(n)
+            g = convert(n.iter)
+            if g is not None:
+                count += 1
+                n.iter = g
+            return n
+
+    T().visit(tree)
     if count:
         ast.fix_missing_locations(tree)
     return count
